@@ -19,6 +19,7 @@ import (
 	"bytes"
 	"fmt"
 	"net/url"
+	"sort"
 	"strings"
 
 	"bfeverif/harness/internal/vh"
@@ -51,6 +52,19 @@ func render(ret int, resp *bfe_http.Response) string {
 		inj := ""
 		if strings.Count(buf.String(), "\r\n") != len(resp.Header) || strings.Count(buf.String(), "\n") != len(resp.Header) {
 			inj = ":header-injection"
+		}
+		// the whole header set is part of the documented rejection: 401 = Server + WWW-Authenticate, 403 = none
+		var keys []string
+		for k := range resp.Header {
+			keys = append(keys, k)
+		}
+		sort.Strings(keys)
+		want := ""
+		if resp.StatusCode == 401 {
+			want = "Server,Www-Authenticate"
+		}
+		if strings.Join(keys, ",") != want || (want != "" && (resp.Header.Get("Server") != "bfe" || len(resp.Header["Www-Authenticate"]) != 1)) {
+			inj += ":headers=" + strings.Join(keys, ",")
 		}
 		return fmt.Sprintf("resp:%d:%s%s", resp.StatusCode, vh.Hex([]byte(resp.Header.Get("WWW-Authenticate"))), inj)
 	}
@@ -150,6 +164,10 @@ func exec(op string) string {
 		if len(f) >= 5 {
 			return execReload(f)
 		}
+	case "hs":
+		if len(f) == 2 {
+			return execHist(f)
+		}
 	case "lu":
 		if len(f) == 1 {
 			return execLoadUser(f)
@@ -180,6 +198,10 @@ func gen(r *vh.Rand) string {
 	}
 	if r.Chance(1, 8) {
 		return genReload(r)
+	}
+	// histories through rule files and the real reload entry points cost a temp dir each: mostly thorough tier
+	if (vh.Thorough && r.Chance(1, 4)) || (!vh.Thorough && r.Chance(1, 12)) {
+		return genHist(r)
 	}
 	switch r.Intn(10) {
 	case 0, 1, 2:
